@@ -302,12 +302,18 @@ fn resolve_once(
             {
                 let size = encodings[0].1.size.unwrap();
 
-                cur_position += size;
+                cur_position = cur_position
+                    .checked_add(size)
+                    .ok_or_else(|| query.report.error_span(
+                        "position is out of supported range",
+                        ast_instr.span))?;
 
-                result = result.concat(
-                    (result.size.unwrap(), 0),
+                result = result.checked_concat(
+                    query.report,
+                    ast_instr.span,
+                    result.size.unwrap(),
                     &encodings[0].1,
-                    (size, 0));
+                    size)?;
             }
             else 
             {
